@@ -21,7 +21,7 @@ from itertools import product
 
 from .. import world
 from ..clock import CLOCK
-from ..ref import ber, snmp
+from ..ref import ber, models, snmp
 from ..vloop import VLoop
 
 PROPERTY = "C19"
@@ -65,9 +65,25 @@ def alphabet():
     A["validkinds"] = (dk, ADDR1, vbsk, True)
     d6, vbs6 = trap_bytes(b"public", PAYLOADS[3][:1], 107)
     A["valid-ipv6"] = (d6, ADDR6, vbs6, True)
+    d0, vbs0 = trap_bytes(b"public", [((1, 3, 9, 4), ("tt", 0))], 108, uptime=0)
+    A["valid-uptime0"] = (d0, ADDR2, vbs0, True)
     d, _ = trap_bytes(b"private", PAYLOADS[3], 104)
     A["foreign"] = (d, ADDR1, None, True)
+    d, _ = trap_bytes(b"publi", PAYLOADS[0], 109)
+    A["foreign-prefix"] = (d, ADDR1, None, True)
+    d, _ = trap_bytes(b"public1", PAYLOADS[0], 110)
+    A["foreign-longer"] = (d, ADDR2, None, True)
     A["truncated"] = (d3[: len(d3) // 2], ADDR2, None, True)
+    # valid envelope and lengths, but the PDU body is damaged (the request-id
+    # field carries the OCTET STRING tag / the binding list is not a sequence)
+    node = snmp.community_msg_node(1, b"public", snmp.pdu_node(snmp.PDU_TRAP, 111, 0, 0, vbs3))
+    node.children[2].children[0].tag = 0x04
+    A["damaged-pdu-field"] = (node.encode(), ADDR1, None, True)
+    node = snmp.community_msg_node(1, b"public", snmp.pdu_node(snmp.PDU_TRAP, 112, 0, 0, vbs3))
+    node.children[2].children[3].tag = 0x04
+    node.children[2].children[3].content = node.children[2].children[3].encode()[2:]
+    node.children[2].children[3].children = None
+    A["damaged-binding-list"] = (node.encode(), ADDR2, None, True)
     A["garbage"] = (b"\x30\x82\xff\xffnot snmp at all", ADDR1, None, True)
     A["empty"] = (b"", ADDR2, None, True)
     d, _ = trap_bytes(b"public", PAYLOADS[0], 105, version=0)
@@ -104,7 +120,16 @@ def run_sequence(letters, datagrams):
             vbs = ("!undecodable", repr(exc)[:80])
         src = pdu.source
         try:
-            origin = TrapInfo(pdu).origin
+            info = TrapInfo(pdu)
+            origin = info.origin
+            view = (info.uptime, info.oid, tuple(sorted(info.values.items(), key=repr)))
+            want = (
+                models.pythonise(vbs[0][1]) if len(vbs) > 1 and vbs[0] != "!undecodable" else None,
+                models.pythonise(vbs[1][1]) if len(vbs) > 1 and vbs[0] != "!undecodable" else None,
+                tuple(sorted(((".".join(map(str, o)), models.pythonise(v)) for o, v in vbs[2:]), key=repr)) if vbs and vbs[0] != "!undecodable" else (),
+            )
+            if view != want:
+                origin = "!pythonic view differs: %r != %r" % (view, want)
         except Exception as exc:  # noqa
             origin = "!" + repr(exc)[:60]
         deliveries.append(("trap", vbs, (getattr(src, "address", None), getattr(src, "port", None)) if src is not None else None, origin))
@@ -171,7 +196,7 @@ def judge(letters, A, deliveries, setup_exc, escaped, logged, closed):
                 got_vbs = sorted(repr(d[1]) for d in got_traps)
                 exp_vbs = sorted(repr(d[1]) for d in expected)
                 src_only = got_vbs[: len(exp_vbs)] == exp_vbs and len(got_traps) >= len(expected)
-            bad("trap-delivered-without-origin" if src_only else "valid-trap-not-delivered-exactly-once", missing=missing[:2], got=got_sorted[:3])
+            bad("trap-delivered-with-wrong-origin-or-pythonic-view" if src_only else "valid-trap-not-delivered-exactly-once", missing=missing[:2], got=got_sorted[:3])
         elif len(extra) > unjudged:
             bad("non-matching-datagram-delivered", extra=extra[:2])
     return out
@@ -179,7 +204,7 @@ def judge(letters, A, deliveries, setup_exc, escaped, logged, closed):
 
 def sequences(tier):
     names = list(alphabet())
-    maxlen = 4 if tier == "quick" else 5
+    maxlen = 3 if tier == "quick" else 4
     for n in range(1, maxlen + 1):
         for seq in product(names, repeat=n):
             yield seq
@@ -234,7 +259,7 @@ def replay(case):
 
 
 def meta(tier):
-    maxlen = 4 if tier == "quick" else 5
+    maxlen = 3 if tier == "quick" else 4
     return {
         "level": "model_checking",
         "rule": "every sequence of 1..%d datagrams over the alphabet %r injected into the real listener set up by register_trap_callback on a fresh virtual loop (states = nodes of the sequence tree = sequences, transitions = datagram deliveries), plus every truncation of a valid trap followed by a valid trap; non-trivial = sequence mixes valid and other datagrams"
